@@ -106,3 +106,31 @@ def patch_ids() -> None:
 
         uuid.uuid4 = _uuid4
         uuid._verif_patched = True  # type: ignore[attr-defined]
+
+
+def patch_datetime(module_names: list[str]) -> None:
+    """Rebind the name `datetime` (the class) in the given modules to a subclass whose now()/utcnow()
+    read the simulated wall clock while a simulation is active."""
+    import datetime as _dt
+    import importlib
+
+    from . import clock
+
+    class SimDateTime(_dt.datetime):
+        @classmethod
+        def now(cls, tz=None):  # type: ignore[override]
+            c = clock.ACTIVE
+            if c is None:
+                return _dt.datetime.now(tz)
+            base = _dt.datetime.fromtimestamp(c.wall(), tz=tz or _dt.timezone.utc)
+            return cls(base.year, base.month, base.day, base.hour, base.minute, base.second, base.microsecond, tzinfo=base.tzinfo if tz else None)
+
+        @classmethod
+        def utcnow(cls):  # type: ignore[override]
+            return cls.now(_dt.timezone.utc).replace(tzinfo=None)
+
+    for name in module_names:
+        mod = importlib.import_module(name)
+        if isinstance(getattr(mod, "datetime", None), type) and not getattr(mod.datetime, "_verif_sim", False):
+            SimDateTime._verif_sim = True  # type: ignore[attr-defined]
+            mod.datetime = SimDateTime     # type: ignore[attr-defined]
